@@ -38,6 +38,7 @@ Section ReaderV0.
     | S f' =>
         match read_line eager B s with
         | REof => Fail
+        | RBroken => Fail
         | RLine _ true r => skip_big_v0 f' r
         | RLine _ false r => Ok r
         end
@@ -45,6 +46,7 @@ Section ReaderV0.
   Definition read_doc_v0 (f : nat) (s : list N) : res (option (list N) * list N) :=
     match read_line eager B s with
     | REof => Fail
+    | RBroken => Fail
     | RLine d false r => Ok (Some d, r)
     | RLine _ true r =>
         match skip_big_v0 f r with
@@ -148,3 +150,10 @@ Example leak_counter_reset_refuted :
   fst (serve rs false 32 (fun _ => Some Object) p body) = Accepted [[123;34;97;34;58;49;125]%N] /\
   fst (serve rs false 32 (fun _ => Some Object) fresh body) = Rejected.
 Proof. split; vm_compute; reflexivity. Qed.
+
+(* ---- the pooled gzip reader given back before the body is read (seeded change, phase 4:
+   `defer putGzipReader(gz); return gz` in a helper): two gzip requests in flight read through
+   the same reader *)
+Example gzip_early_put_refuted :
+  map snd (held (prun_early [Start 1 0; Start 2 0])) = [0; 0].
+Proof. vm_compute. reflexivity. Qed.
